@@ -45,6 +45,88 @@ func runC15(p *eng.Prog, r *eng.Report, tier string) {
 	// C15.2 the session id that selects the stream is the payload's own sid
 	ownAttrLookups(c, "C15.2", func(f *eng.Fn) bool { return strings.HasPrefix(f.Short, "ibb.") })
 	c15NewConn(c)
+	// C15.8 no lock held across an acknowledged write is taken by the handler
+	serveLockWait(c, "C15.8")
+	// C15.9 a cancelled Expect removes only its own registration
+	c15ExpectOwnEntry(c)
+}
+
+// c15ExpectOwnEntry: Expect registers an entry, releases the table lock and
+// waits; a second Expect for the same peer and sid takes the registration over
+// (documented). When the first call gives up it may only remove the entry if
+// it is still its own: every delete from Listener.expected that follows a
+// release of the table lock after the store is dominated, since the lock was
+// taken again, by a fresh comma-ok lookup of the entry and by a comparison
+// that involves the looked-up entry. (An unconditional delete removes the
+// successor's registration: the peer's open is then accepted but handed to
+// nobody.)
+func c15ExpectOwnEntry(c *cx) {
+	id := "C15.9"
+	n := 0
+	for _, f := range c.allFns() {
+		if !strings.HasPrefix(f.Short, "ibb.") || f.Body == nil {
+			continue
+		}
+		g := f.Graph()
+		var stores, dels []eng.MapUpdate
+		for _, mu := range f.MapUpdates() {
+			if k, ok := f.FieldClass(mu.Map); !ok || k != "ibb.Listener.expected" {
+				continue
+			}
+			if mu.Delete {
+				dels = append(dels, mu)
+			} else {
+				stores = append(stores, mu)
+			}
+		}
+		if len(stores) == 0 || len(dels) == 0 {
+			continue
+		}
+		isUnlock := func(q eng.Point, nd ast.Node) bool {
+			found := false
+			ast.Inspect(nd, func(x ast.Node) bool {
+				if cl, ok := x.(*ast.CallExpr); ok {
+					if op, cls, _ := f.LockOp(cl); op < 0 && cls == "ibb.Listener.eLock" {
+						found = true
+					}
+				}
+				return !found
+			})
+			return found
+		}
+		for _, d := range dels {
+			dp, ok := g.Where(d.Node)
+			if !ok {
+				continue
+			}
+			// was the lock released between a store and this delete?
+			released := false
+			for _, st := range stores {
+				sp, ok := g.Where(st.Node)
+				if ok && g.Reachable(g.After(sp), dp, nil, nil) && !g.Reachable(g.After(sp), dp, nil, isUnlock) {
+					released = true
+				}
+			}
+			if !released {
+				continue
+			}
+			n++
+			// the last acquisition before the delete
+			var from eng.Point
+			have := false
+			for _, cl := range f.AllCalls() {
+				if op, cls, _ := f.LockOp(cl); op > 0 && cls == "ibb.Listener.eLock" {
+					lp, ok := g.Where(cl)
+					if ok && g.Reachable(g.After(lp), dp, nil, isUnlock) {
+						from, have = g.After(lp), true
+					}
+				}
+			}
+			okd := have && g.DominatedFrom(from, dp, []string{"commaok(recv.expected[*])"}) && g.DominatedFrom(from, dp, []string{"eq(*recv.expected[*]*,*)", "eq(*,*recv.expected[*]*)"})
+			c.r.Check(id, f, "delete from Listener.expected after the lock was released", "G: after waiting, the entry is removed only if a fresh lookup under the lock finds it and it is still the caller's own (identity comparison with the looked-up entry)", d.Node.Pos(), okd, "the delete is not guarded by a fresh lookup and an identity comparison since the lock was re-acquired: a second Expect that took the registration over loses its entry")
+		}
+	}
+	c.r.Floor(id, "deletes from Listener.expected after a release of the table lock", n, 1)
 }
 
 func c15Open(c *cx) {
